@@ -51,6 +51,7 @@ func (p *Program) ensureGlobalFacts() {
 			n     int64
 			ok    bool
 			et    types.Type
+			nn    map[int64]bool // elements stored from regexp.MustCompile (never nil)
 		}
 		arrays := map[ssa.Value]*sliceLit{}
 		for _, b := range init.Blocks {
@@ -76,7 +77,7 @@ func (p *Program) ensureGlobalFacts() {
 					}
 				case *ssa.Alloc:
 					if at, ok := x.Type().(*types.Pointer).Elem().Underlying().(*types.Array); ok {
-						arrays[x] = &sliceLit{elems: map[int64]constant.Value{}, n: at.Len(), ok: true, et: at.Elem()}
+						arrays[x] = &sliceLit{elems: map[int64]constant.Value{}, n: at.Len(), ok: true, et: at.Elem(), nn: map[int64]bool{}}
 					}
 				case *ssa.Store:
 					if ia, ok := x.Addr.(*ssa.IndexAddr); ok {
@@ -88,6 +89,12 @@ func (p *Program) ensureGlobalFacts() {
 								al.elems[i] = vc.Value
 							} else {
 								al.ok = false
+								if call, isCall := x.Val.(*ssa.Call); ok1 && isCall {
+									if f := call.Common().StaticCallee(); f != nil && f.String() == "regexp.MustCompile" {
+										i, _ := constant.Int64Val(ic.Value)
+										al.nn[i] = true
+									}
+								}
 							}
 						}
 						continue
@@ -113,6 +120,9 @@ func (p *Program) ensureGlobalFacts() {
 							for i := int64(0); i < al.n; i++ {
 								gf.Vals = append(gf.Vals, al.elems[i])
 							}
+						} else if al != nil && int64(len(al.nn)) == al.n && len(al.elems) == 0 && v.Low == nil && v.High == nil {
+							gf.Kind = "nonnilslice"
+							gf.NumSub = int(al.n)
 						} else {
 							gf.Kind = "nonnil"
 						}
@@ -219,6 +229,18 @@ func (p *Program) assumeGlobalFacts(e *Exec, fn *ssa.Function, h0 *Heap) {
 		so := u.sortOf(et)
 		val := app("select", h0.get(u.cellVar(so)), ref)
 		switch gf.Kind {
+		case "nonnilslice":
+			if so != SSlice {
+				continue
+			}
+			s := vc.fresh("gslice_"+g.Name(), "Slice")
+			vc.def(eq(s, val))
+			vc.assume(eq(app("s_len", s), fmt.Sprint(gf.NumSub)))
+			vc.assume(not(eq(app("s_base", s), "0")))
+			for i := 0; i < gf.NumSub; i++ {
+				vc.assume(not(eq(app("at_"+sortTag(SRef), h0.get(u.elemVar(SRef)), s, fmt.Sprint(i)), "0")))
+			}
+			used = true
 		case "regexp", "nonnil":
 			if so == SSlice {
 				vc.assume(not(eq(app("s_base", val), "0")))
